@@ -409,13 +409,15 @@ PROPERTIES["C16"] = {
     "verus_units": ["sorted_deque"],
     "assumptions": [
         "UNBOUNDED (Verus unit sorted_deque, generic in the container and the comparator): new, push_back_or_panic, clear, is_empty, "
-        "first, last, pop_first, pop_last, find, find_index, remove, cleanup_back, check_rep against the reference ordered map "
+        "first, last, pop_first, pop_last, find, find_index, remove, cleanup_front, cleanup_back, check_rep against the reference ordered map "
         "`live` (the non-erased physical items, in order) and the invariant wf (inner deque invariant, keys strictly increasing "
         "over ALL physical items, first and last physical item live); on top of the SlidingDeque contracts of C15 (re-verified in "
         "the same unit)",
-        "ASSUMED in that proof: (1) SortedDeque::cleanup_front drops exactly the leading run of erased items (its body iterates "
-        "with .iter().enumerate(), outside Verus's dialect) -- checked BOUNDED by the Kani harnesses and the native cross-check; "
-        "(2) the comparator's order laws (Less/Greater antisymmetry, transitivity of Less, Equal is a congruence) and the "
+        "SortedDeque::cleanup_front is PROVED in the unit as well (it drops exactly the leading run of erased items): its "
+        "`for (idx, item) in self.items.iter().enumerate()` loop is desugared mechanically into an indexed while loop by rule N15 "
+        "(reported under n_rules_applied) and carries a loop invariant; the Kani harnesses c16_*_cleanup_front_contract remain as a "
+        "second engine with concrete counterexamples",
+        "ASSUMED in that proof: (2) the comparator's order laws (Less/Greater antisymmetry, transitivity of Less, Equal is a congruence) and the "
         "SortedDequeComparator / SortedDequeMarker method contracts (is_erased, extract_key, cmp pure; mark_erased sets the "
         "flag and keeps the key) -- for the two PROVIDED conventions these are checked only by the bounded Kani harnesses; the "
         "default body of is_erased is dropped (N14); (3) std: <[T]>::binary_search_by as documented, Ordering::eq structural",
@@ -457,7 +459,8 @@ PROPERTIES["C08"] = {
         "NO hard I/O errors (C08's quantifier has none)",
         "ASSUMED: AnchoredSlice::{slice, take, skip_prefix, split_at} act on the exposed bytes as documented; arena states and "
         "memory liveness are out of scope (C05)",
-        "ASSUMED: find_stuff_sequence returns the first FE FD index (bounded Kani harness c07_find_stuff_sequence_bounded)",
+        "find_stuff_sequence is no longer assumed: the real function is part of the unit and PROVED (first FE FD index or None; its "
+        "windows(2).enumerate() loop is desugared mechanically by rule N16 and carries a loop invariant)",
         "the reader is moved into pump: that the caller's reader has advanced by what pump consumed (impl Read for &mut R) is "
         "part of the reader model; the tiling of successive calls follows from the per-call contract by induction on calls "
         "(lemma theorem_c08_tiling)",
@@ -521,8 +524,11 @@ PROPERTIES["C12"] = {
 _HCOBS_ASSUMED = [
     "ASSUMED (not proved here; producer-side content of C03/C04): OwningIovec::{new,push,push_copy,register_patch,"
     "backfill_or_panic,push_anchor} contracts over the ghost view (bytes, pending) -- vx/hcobs/assumed_iovec.rs",
-    "ASSUMED: find_stuff_sequence returns the first FE FD index or None (its body uses windows().enumerate(), outside "
-    "Verus's dialect); checked only by a BOUNDED Kani harness (all slices of length <= 72 quick / 136 thorough)",
+    "find_stuff_sequence is no longer assumed: the real function is part of the unit and PROVED for slices of every length "
+    "(Some(i) <=> first index of FE FD, None <=> no FE FD): its `for (idx, window) in bytes.windows(2).enumerate()` loop is "
+    "desugared mechanically into an indexed while loop by rule N16 (reported under n_rules_applied); slice == array comparison "
+    "per vstd's specification.  The Kani harness c07_find_stuff_sequence_bounded and the native enumeration stay as second "
+    "engines (concrete counterexamples, and they still decide when a rewrite of the function leaves Verus's dialect)",
     "ASSUMED: AnchoredSlice::components yields exactly the anchored bytes (unsafe in the real crate; memory validity is C05)",
     "ASSUMED: Backref::len == registered pattern length; Backref: Default; std::mem::swap per vstd's specification",
     "consumer-side operations (drains) do not change the ghost view (bytes, pending): the logical stream since "
